@@ -25,6 +25,6 @@ git checkout go.sum 2>/dev/null
 cd /verif
 for c in $CHECKS; do
   echo "== ./check $c quick against the change"
-  VERIF_REPO=$WT ./check $c quick 2>&1 | cut -c1-260 | grep -v "^  sig" | head -6
+  VERIF_REPO=$WT ./check $c quick 2>&1 | cut -c1-260 | grep -v "^  sig\|^KNOWN-FINDING" | head -6
 done
 git -C /repo worktree remove --force $WT; rm -rf /verif/.work/alt-$(echo $WT | md5sum | cut -c1-8)
